@@ -1,6 +1,8 @@
 (* Property C12 - sinks see writes only inside start..stop; faults never crash the pipeline. *)
 From Coq Require Import List ZArith Bool.
 From TR Require Import model.Ring model.Processor model.ProcAbs model.ProcSpec proofs.ProcRefine proofs.ProcS1217.
+(* constants and wiring read from the Go sources on every run *)
+From TR Require Import proofs.FactsProc.
 Import ListNotations.
 Open Scope Z_scope.
 
